@@ -45,6 +45,12 @@ def run(ctx):
     ctx.alias = {'R2': 'R11'}
     c01.r2_dedup(ctx)
     ctx.alias = {}
+    # "nothing moved to another spine": the number of paths a spine operator leaves open decides which importer reads the cells to
+    # its right (C02.R3/R5 as R12)
+    from . import c02
+    ctx.alias = {'R3': 'R12', 'R5': 'R12'}
+    c02.r3_r5_counts(ctx)
+    ctx.alias = {}
     c01.r3_export_order(ctx, g, None, 'R7')
     # cells are taken literally by the line reader, and every token is built by a listener created for that token alone
     ctx.alias = {'R1': 'R3', 'R2': 'R3'}
